@@ -7,6 +7,8 @@ Report(k, name, holds) == holds \/ PrintT(<<"VIOL", k, name>>)
 Judge(k) == ln(k).ev = "Exec" =>
   (* an input accepted at submission never panics where nothing recovers: in the handler, nor in the block after it *)
   /\ Report(k, "C15.NoPanicInHandler", ln(k).submit = "ok" => ln(k).res # "panic")
+  (* genesis family: submit = the module's genesis validation accepted the state; res = InitChain of a fresh application *)
+  /\ Report(k, "C15.NoPanicInGenesis", (ln(k).args.fam = "genesis" /\ ln(k).submit = "ok") => ln(k).res # "panic")
   /\ Report(k, "C15.NoPanicInBlock", ln(k).submit = "ok" => ln(k).block # "panic")
   /\ Report(k, "C15.FailedProposalChangesNothing", (ln(k).submit = "ok" /\ ln(k).res = "err") => ln(k).dg.pre = ln(k).dg.post)
 TInit == l = 0
